@@ -397,10 +397,53 @@ def history_case(ctx, rng):
         ctx.count("history", tag)
 
 
+def no_sector_case(ctx, rng):
+    """A total charge that no combination of the indices' charges conserves: every constructor
+    must give the zero tensor (no stored block), whatever the index sizes."""
+    sr = ctx.sr
+    sym = rng.choice(gen.SYMS5)
+    ferm = rng.random() < 0.4
+    nd = rng.randint(1, 4)
+    if rng.random() < 0.5:
+        idx = [sr.BlockIndex({rng.choice(gen.POOL[sym]): 1}, dual=rng.random() < 0.5) for _ in range(nd)]
+        ctx.count("feature", "all-axes-of-size-one")
+    else:
+        idx = [gen.rand_index(sr, rng, sym, maxc=2, maxd=2) for _ in range(nd)]
+    reach = {R.sector_charge(sym, sec, [ix.dual for ix in idx]) for sec in itertools.product(*[list(ix.chargemap) for ix in idx])}
+    cands = [c for c in gen.POOL[sym] if c not in reach]
+    if not cands:
+        return
+    charge = rng.choice(cands)
+    cls, extra, kind = gen.pick_class(sr, rng, sym, ferm)
+    okw = {"oddpos": 3} if (ferm and R.par(sym, charge)) else {}
+    wit = {"symmetry": sym, "class": cls.__name__, "indices": [dict(ix.chargemap) for ix in idx], "duals": [bool(ix.dual) for ix in idx], "charge": repr(charge)}
+    builders = {
+        "from_fill_fn": lambda: cls.from_fill_fn(lambda shape: np.ones(shape), idx, charge, **extra, **okw),
+        "random": lambda: cls.random(idx, charge=charge, seed=3, **extra, **okw),
+        "plain": lambda: cls(indices=idx, charge=charge, blocks={}, **extra, **okw),
+    }
+    for name, fn in builders.items():
+        o = ctx.call(fn)
+        ctx.evaluated()
+        ctx.count("ctor", name + ":no-valid-sector")
+        if not o.ok:
+            if o.refusal:
+                ctx.count("refusal", f"{name}:no-valid-sector")
+            else:
+                ctx.violation(f"{name}-raises-{o.excname}", f"no sector conserves the charge: {o.exc!r}", wit)
+            continue
+        if o.value.blocks:
+            ctx.violation("block-in-a-sector-that-does-not-conserve-the-charge", f"{name} with a total charge no sector conserves stored blocks {list(o.value.blocks)}", wit)
+            return
+    ctx.nontrivial(("no-sector", sym, kind, tuple(tuple(ix.chargemap) for ix in idx), repr(charge)))
+
+
 def run(ctx):
     for _, rng in ctx.cases("spec", ctx.budget(70000, 1400000)):
         ctx.run_case(spec_case, ctx, rng)
     for _, rng in ctx.cases("projection", ctx.budget(150000, 3000000)):
         ctx.run_case(projection_case, ctx, rng)
+    for _, rng in ctx.cases("no-sector", ctx.budget(6000, 120000)):
+        ctx.run_case(no_sector_case, ctx, rng)
     for _, rng in ctx.cases("history", ctx.budget(12000, 250000)):
         ctx.run_case(history_case, ctx, rng)
